@@ -50,7 +50,9 @@ def gen_graph(rng):
     names = [("c-%d" if (dashed and rng.random() < 0.6) else "c%d") % i for i in range(k)]
     if rng.random() < 0.3:
         # names that contain each other
-        names = rng.sample(["build", "build-all", "all", "b", "nightly", "night", "c1", "c10", "c11", "x", "ax", "a"], k)
+        # ... or differ only in the case of their letters
+        names = rng.sample(["build", "build-all", "all", "b", "nightly", "night", "c1", "c10", "c11", "x", "ax", "a",
+                            "Build", "ALL", "B", "Night"], k)
     if rng.random() < 0.2:
         # names that END with the character that marks internal option sets when it comes first
         names = [nm + "!" if rng.random() < 0.5 else nm for nm in names]
@@ -298,17 +300,27 @@ def judge(ctx, g, case):
                 problems.append(("parse-raises", {"argv": [cmd] + std, "type": type(err).__name__}))
     # positional arguments that are not command names: the default command
     if positional:
-        for first in ("help", "h", "--", "-", "", "x", "e", g['names'][0] + "x"):
+        std_first = [] if g.get('flags', {}).get('_no_log') else ["-v", "-vv"]
+        for first in ["help", "h", "--", "-", "", "x", "e", g['names'][0] + "x",
+                      # (a value that is the name of a command in other letters is a value)
+                      g['real'][0].upper(), g['real'][-1].capitalize(), g['real'][0].swapcase(),
+                      # (a standard option in front of a value that reads like a command: still no command name first)
+                      "--no-color"] + std_first:
             if first in g['names']:
                 continue      # (the name of an internal option set is recognised too - and refused as a command:
                               #  the repository's own tests pin that down)
+            if first.startswith("-") and first not in ("-", "--"):
+                ctx.count("standard_options_in_front_of_a_value_that_reads_like_a_command")
             for argv in ([first], [first, g['real'][-1]], [first, "--g-0"]):
+                if first.startswith("-") and first not in ("-", "--") and len(argv) == 1:
+                    continue
                 ctx.count("positional_first_vectors")
                 try:
                     with contextlib.redirect_stderr(io.StringIO()), contextlib.redirect_stdout(io.StringIO()):
                         ns = parse(ap, argv, len(first) % 2 == 1)
                     # after the end-of-options marker everything is positional
-                    want_items = argv[1:] if first == "--" else [a for a in argv if a != "--g-0"]
+                    want_items = argv[1:] if first == "--" else [a for a in argv if a != "--g-0" and a not in
+                                                                   ("--no-color", "-v", "-vv")]
                     if ns.command != exp_default:
                         problems.append(("wrong-command-recorded", {"argv": argv, "command": ns.command,
                                                                     "expected": exp_default}))
